@@ -155,9 +155,9 @@ class C16(VectorEngine):
                    "whether iterations of @for/@each share one frame is not fixed by the property: programs on which the two choices differ are undef and skipped",
                    "`null + 100` is outside the property (undef)"]
     mc_runs = {
-        "quick": [("MC_Scope", "MC_Scope_C16_a.cfg", {"workers": 8}), ("MC_Scope", "MC_Scope_C16_b.cfg", {"workers": 8}),
-                  ("MC_Scope", "MC_Scope_C16_c.cfg", {"workers": 8})],
-        "thorough": [("MC_Scope", "MC_Scope_C16_b.cfg", {"workers": 8}), ("MC_Scope", "MC_Scope_C16_t.cfg", {"workers": 8, "timeout": 1800}),
+        "quick": [("MC_Scope", "MC_Scope_C16_a.cfg", {"workers": 4}), ("MC_Scope", "MC_Scope_C16_b.cfg", {"workers": 4}),
+                  ("MC_Scope", "MC_Scope_C16_c.cfg", {"workers": 4})],
+        "thorough": [("MC_Scope", "MC_Scope_C16_b.cfg", {"workers": 4}), ("MC_Scope", "MC_Scope_C16_t.cfg", {"workers": 4, "timeout": 1800}),
                      ("MC_Scope", "MC_Scope_C16_sim.cfg", {"simulate": "num=10000", "depth": 30, "workers": 4, "timeout": 600})],
     }
     random_n = {"quick": 600, "thorough": 6000}
